@@ -18,7 +18,7 @@ def vfit_slope(c0, c1, c2, measure) -> "float":
     return (c0 - c1) if sgn(measure) * c0 > sgn(measure) * c2 else (c2 - c1)
 
 
-@contract("pandora.refinement.vfit.Vfit.refinement_method", props=["C06"],
+@contract("pandora.refinement.vfit.Vfit.refinement_method", props=["C06", "C09"],
           implements="pandora.refinement.refinement.AbstractRefinement.refinement_method")
 def _(cost, disp, measure):
     types(cost="f64[3]", disp="float", measure="str")
@@ -41,7 +41,7 @@ def _(cost, disp, measure):
                                    isfinite(result[1]) and sgn(measure) * result[1] <= sgn(measure) * cost[1]))
 
 
-@contract("pandora.refinement.quadratic.Quadratic.refinement_method", props=["C06"],
+@contract("pandora.refinement.quadratic.Quadratic.refinement_method", props=["C06", "C09"],
           implements="pandora.refinement.refinement.AbstractRefinement.refinement_method")
 def _(cost, disp, measure):
     types(cost="f64[3]", disp="float", measure="str")
@@ -115,7 +115,7 @@ def refined_pixel(cv, disp0, mask0, disp1, mask1, coeff, r, c, d_min, subpixel, 
     )
 
 
-@contract("pandora.refinement.refinement.AbstractRefinement.loop_refinement", props=["C06", "C04", "C18"])
+@contract("pandora.refinement.refinement.AbstractRefinement.loop_refinement", props=["C06", "C04", "C18", "C09"])
 def _(cv, disp, mask, d_min, d_max, subpixel, measure, method):
     types(cv="f32[:,:,:]", disp="f32[:,:]", mask="u16[:,:]", d_min="float", d_max="float", subpixel="int", measure="str",
           method="func:pandora.refinement.refinement.AbstractRefinement.refinement_method",
